@@ -6,7 +6,7 @@ import ast
 from sa.cfg import CFG
 from sa.expr import cmp_atom, edges_where, resolve, single_defs
 from sa.loader import Program, dotted, norm, own_nodes
-from sa.util import kwarg, parent_map, self_attr, where, ancestors
+from sa.util import kwarg, parent_map, self_attr, where, ancestors, field_accesses
 
 PROPERTY = "C08"
 CMOD = "optuna.storages._cached_storage"
@@ -432,8 +432,27 @@ def run(ctx):
                     if comp and norm(comp[0].generators[0].iter) == inc:
                         shape = "prefilter:id<=wm"
                 shapes.append((shape, norm(n), n))
-            elif isinstance(n, ast.Call) and isinstance(n.func, ast.Attribute) and n.func.attr == "in_" and n.args and norm(n.args[0]) == inc:
-                shapes.append(("id in inc", norm(n), n))
+            elif isinstance(n, ast.Call) and isinstance(n.func, ast.Attribute) and n.func.attr == "in_" and n.args and "trial_id" in norm(n.func.value):
+                # the membership operand is the whole included set (possibly re-wrapped), or a chunk of it in a loop that
+                # provably visits every chunk: `for i in range(0, len(X), n): X[i:i + n]`
+                fdefs = single_defs(f.node)
+                arg = resolve(n.args[0], fdefs)
+                whole = lambda e: norm(e) == inc or (isinstance(e, ast.Call) and dotted(e.func) in ("sorted", "list", "set", "tuple", "frozenset") and e.args and whole(resolve(e.args[0], fdefs)))  # noqa: E731
+                ok_in = whole(arg)
+                if not ok_in and isinstance(n.args[0], ast.Name):
+                    chunk_defs = [x for x in own_nodes(f.node) if isinstance(x, ast.Assign) and any(isinstance(t, ast.Name) and t.id == n.args[0].id for t in x.targets)]
+                    for cd in chunk_defs:
+                        v = cd.value
+                        loops = [a for a in ancestors(cd, pm) if isinstance(a, ast.For)]
+                        if (isinstance(v, ast.Subscript) and isinstance(v.slice, ast.Slice) and loops and isinstance(loops[0].target, ast.Name)
+                                and whole(resolve(v.value, fdefs)) and isinstance(loops[0].iter, ast.Call) and dotted(loops[0].iter.func) == "range"
+                                and len(loops[0].iter.args) == 3):
+                            i = loops[0].target.id
+                            r0, r1, r2 = loops[0].iter.args
+                            lo, hi = v.slice.lower, v.slice.upper
+                            ok_in = (norm(r0) == "0" and norm(r1) == f"len({norm(v.value)})" and lo is not None and norm(lo) == i
+                                     and hi is not None and norm(hi) in (f"{i} + {norm(r2)}", f"{norm(r2)} + {i}"))
+                shapes.append(("id in inc" if ok_in else None, norm(n), n))
         rows[f.short] = [s for s, _, _ in shapes]
         for shape, txt, node in shapes:
             ctx.check(shape is not None, "R08.5", f.short, f"shape:{txt}",
@@ -486,6 +505,23 @@ def run(ctx):
     ok = any(isinstance(c, ast.Call) and isinstance(c.func, ast.Attribute) and c.func.attr == "pop" and norm(c.func.value) == "self.studies"
              for c in own_nodes(f.node)) or any(isinstance(n, ast.Delete) and any(norm(t).startswith("self.studies[") for t in n.targets) for n in own_nodes(f.node))
     ctx.check(ok, "R08.7", f.short, "invalidate:studies", message="delete_study_cache does not drop the entry", how="pop/del of self.studies[study_id]")
+    # delete_study clears the id<->number maps by walking the study's cached trial table, so an entry may only be
+    # entered together with a row of that table: the one method that inserts into `<study>.trials[...]` is the only
+    # writer of the maps besides delete_study (a look-up that memoises its answer would leave keys delete never finds)
+    map_fields = [fld for fld in cached.fields() if "number" in fld and "trial_id" in fld] if hasattr(cached, "fields") else []
+    if not map_fields:
+        map_fields = sorted({a.field for m in cached.methods.values() for a in field_accesses(m.node) if "number" in a.field and "trial_id" in a.field})
+    ctx.require(map_fields, "R08.7: the cached storage's id<->number maps vanished")
+    table_writers = {m.name for m in cached.methods.values() for n in own_nodes(m.node)
+                     if isinstance(n, ast.Assign) and any(isinstance(t, ast.Subscript) and norm(t.value).endswith(".trials") for t in n.targets)}
+    ctx.require(table_writers, "R08.7: no method inserts into the cached trial table")
+    for fld in map_fields:
+        writers = {m.name for m in cached.methods.values() for a in field_accesses(m.node) if a.field == fld and a.kind in ("write", "mutate")}
+        extra = writers - table_writers - {"delete_study", "__init__"}
+        ctx.check(not extra, "R08.7", cached.module.relpath + "::" + cached.name, f"map-writers:{fld}",
+                  message=f"_CachedStorage.{fld} is also written by {sorted(extra)}: delete_study removes map entries by walking the study's cached trials, so an entry "
+                          f"entered without a row in that table survives the deletion and answers for whatever study re-uses the id",
+                  how=f"writers are {sorted(table_writers)} (with the trial table), delete_study and __init__ only")
     # a study the server no longer knows (NOT_FOUND -> KeyError) loses its cache entry before the
     # error leaves: with re-used ids the next study under that id must not inherit trials and watermark
     f = gcache.methods.get("_read_trials_from_remote_storage")
